@@ -265,6 +265,14 @@ func (r *FeatureLocal) CleanWriteApprovalCaches(ski string) {
 	r.muxResponseCB.Lock()
 	defer r.muxResponseCB.Unlock()
 
+	// stop the pending timers, otherwise they will still fire and send
+	// a timeout result to the removed connection
+	for _, timer := range r.pendingWriteApprovals[ski] {
+		if timer != nil {
+			timer.Stop()
+		}
+	}
+
 	delete(r.pendingWriteApprovals, ski)
 	delete(r.writeApprovalReceived, ski)
 }
